@@ -121,6 +121,30 @@ Proof.
 Qed.
 Print Assumptions c23_copy_exact_partial.
 
+(** Link to the implementation: when the correspondence check succeeds on a run case, the
+    acknowledgments OBSERVED on the real data mover's Top port (ro_ticks c) are, in order, the
+    acknowledgments of the moves that arrived, in arrival order, each with the ID and requester
+    of its move; and (when all sizes are multiples of the granularities) every write request the
+    real component sent stays inside the destination range of an arrived move. *)
+From Akita Require Import C23.Link.
+Theorem c23_model_agreement_implies_property : forall c, check_case (CRun c) = true ->
+  exists e,
+    let d := e_dm e in
+    arrivals (rc_script c) (ro_ticks c) = map snd (g_acks d) ++ (if d_active d then [d_req d] else []) ++ d_top_in d /\
+    Forall (fun x => a_rspto (fst x) = v_id (snd x) /\ a_dst (fst x) = v_src (snd x)) (g_acks d) /\
+    flat_map to_acks (ro_ticks c) ++ d_top_out d = map fst (g_acks d) /\
+    (Forall (fun i => Forall (nice (rc_gin c) (rc_gout c)) (i_top i)) (rc_script c) ->
+     forall side addr data, In (side, addr, data) (g_writes d) ->
+     exists v, In v (arrivals (rc_script c) (ro_ticks c)) /\ side = v_dside v /\
+               v_daddr v <= addr /\ addr + N.of_nat (length data) <= v_daddr v + v_size v).
+Proof.
+  intros c H. destruct (check_run_obs c H) as [e E]. exists e. unfold init_env in E.
+  destruct (c23_serial_one_ack _ _ _ _ _ _ _ _ _ _ _ _ E) as [A [B C]].
+  split; [exact A|split; [exact B|split; [exact C|]]].
+  intros Hn. apply (c23_nothing_else_written _ _ _ _ _ _ _ _ _ _ _ _ Hn E).
+Qed.
+Print Assumptions c23_model_agreement_implies_property.
+
 (** Non-vacuity and an instance of the full statement: two moves (inside->outside 64 bytes at
     granularities 16/32, then outside->inside 32 bytes), memories answering youngest-first with
     delays; both acknowledged in order and the final memories are exactly the two copies. *)
